@@ -1,6 +1,6 @@
 """C18 — truncated files: handle typestate on every exit, loop progress, nullable use, ENDLIB
 dominance of success returns, error-result checks, bounded copies (DESIGN.md §4 C18)."""
-from .. import flow, cfg as cfgmod
+from .. import flow, tables, cfg as cfgmod
 from ..facts import AnalysisBroken
 from ..flow import null_test, lvalue_key, is_assign, pretty_key, _strip_casts
 import re
@@ -350,6 +350,85 @@ def debug_units(repo):
     return out
 
 
+def null_hazards(g):
+    """[(store node, deref node, {param name: required truth})]: a local pointer of g is set to NULL and, on a CFG path without
+    re-assignment, dereferenced with no test of the pointer in between; the conditions of the dereference that are plain boolean
+    parameters are returned so that a caller passing literals can be judged."""
+    out = []
+    cfg = g.cfg
+    sc = _strip_casts
+    for st in g.walk():
+        if not (is_assign(st) and st.op == '=' and sc(st.child('rhs')) is not None and (sc(st.child('rhs')).is_null_const() or st.child('rhs').is_null_const())):
+            continue
+        l = sc(st.child('lhs'))
+        if l.k != 'DeclRefExpr' or l.dk != 'local' or '*' not in (l.t or ''):
+            continue
+        key = lvalue_key(l)
+        derefs = []
+        for x in g.walk():
+            b = None
+            if x.k == 'ArraySubscriptExpr':
+                b = sc(x.child('base') or x.c[0])
+            elif x.k == 'UnaryOperator' and x.op == '*':
+                b = sc(x.child('sub'))
+            elif x.k == 'MemberExpr' and x.arrow:
+                b = sc(x.child('base'))
+            if b is not None and lvalue_key(b) == key and x.id > st.id:
+                derefs.append(x)
+        wst = cfg.where_node(st)
+        for d in derefs:
+            wd = cfg.where_node(d)
+            if wst is None or wd is None:
+                continue
+            redefs = {y.id for y in g.walk() if is_assign(y) and y is not st and lvalue_key(sc(y.child('lhs'))) == key}
+            path = cfg.path_avoiding(wst, lambda b_, i_, nid: (b_, i_) == wd, lambda b_, i_, nid: nid in redefs)
+            if path is None:
+                continue
+            conds = tables.path_conds(d)
+            if any(null_test(c) is not None and null_test(c)[0] == key for c, pol in conds):
+                continue            # the pointer itself is tested on the way
+            req = {}
+            for c, pol in conds:
+                c0 = sc(c)
+                if c0.k == 'DeclRefExpr' and c0.dk == 'param':
+                    req[c0.n] = pol
+            out.append((st, d, req))
+    return out
+
+
+def check_callee_null_hazards(ctx, db, readers):
+    """A reader named by the property must not call a library function in a mode in which that function dereferences a pointer it
+    has just set to NULL (error path of a short read): for every call from the readers to a function with such a hazard, the
+    literal arguments are matched against the parameter conditions of the hazardous dereference."""
+    n = 0
+    for f in readers:
+        for c in f.walk():
+            if c.k != 'CallExpr' or not (c.callee or '').startswith('gdstk::'):
+                continue
+            for g in db.fn(c.callee, all=True, required=False) or []:
+                if g.body is None or len(g.params) != len(c.args):
+                    continue
+                hz = null_hazards(g)
+                if not hz:
+                    continue
+                n += 1
+                hit = None
+                for st, d, req in hz:
+                    ok_all = True
+                    for i_, p_ in enumerate(g.params):
+                        if p_['n'] in req:
+                            a = _strip_casts(c.args[i_])
+                            if a.k == 'CXXBoolLiteralExpr' and bool(a.v) != req[p_['n']]:
+                                ok_all = False
+                    if ok_all:
+                        hit = (st, d, req)
+                key = '%s->%s@%s' % (f.qn.replace('gdstk::', ''), g.qn.replace('gdstk::', ''), c.loc())
+                ctx.check(hit is None, 'R-NULL.callee', key, c.loc(), '%s is called in a mode in which its error path does not touch the pointer it has released' % g.name,
+                          '%s sets `%s` to NULL at %s and then executes `%s` (%s) when called with these arguments: on a truncated file this reader writes through a null pointer' % (
+                              g.name, hit[0].child('lhs').text() if hit else '', hit[0].loc() if hit else '', ' '.join(hit[1].text().split())[:60] if hit else '', hit[1].loc() if hit else ''))
+    ctx.require('R-NULL.callee calls of functions with a conditional hazard', n, 1)
+
+
 def run(ctx):
     db = ctx.db
     fns = {qn: db.fn(qn) for qn in READERS}
@@ -415,8 +494,8 @@ def run(ctx):
     ctx.require('R-NULL.logger log sites (debug configuration)', nd, 3)
 
     from . import C17   # payloads are not NUL-terminated; buffers hold the longest record (shared with C17)
-    C17.check_payload_strings(ctx, db)
-    C17.check_record_buffers(ctx, db)
+    ctx.attempt(C17.check_payload_strings, ctx, db)
+    ctx.attempt(C17.check_record_buffers, ctx, db)
 
     # R-PAIR.dangling: a released pointer is not read again (returned, passed on, dereferenced, released twice)
     reach_all = set()
@@ -437,6 +516,7 @@ def run(ctx):
             if f_.body is not None:
                 ndg += flow.check_dangling(ctx, f_)
     ctx.require('R-PAIR.dangling release sites', ndg, 8)
+    ctx.attempt(check_callee_null_hazards, ctx, db, [fns[q] for q in FLOW_READERS])# the full OASIS loader's error paths are outside the claim
 
     # positive controls: the same rules must fire on seeded miniatures
     cdb = load_controls()
